@@ -673,9 +673,77 @@ func checkDeepAndPipes(a *Acc) {
 			}
 		}
 	}
+	// a *bytes.Buffer the producer keeps appending to: the raw bytes handed back for one document stay what they were
+	// when the next document is written to the buffer and read
+	{
+		bx := []string{`<item>apple</item>`, `<item k="1">pear and plum</item>`, `<note>done</note>`, `<list>` + strings.Repeat("<e>x</e>", 40) + `</list>`, `<z/>`}
+		bj := []string{`{"item":"apple"}`, `{"item":{"k":"pear and plum"}}`, `{"note":"done"}`, `{"list":[` + strings.Repeat(`"x",`, 40) + `"y"]}`, `{"z":1}`}
+		var bufX, bufJ bytes.Buffer
+		var rawsX, rawsJ [][]byte
+		for i := range bx {
+			bufX.WriteString(bx[i])
+			_, raw, err := mxj.NewMapXmlReaderRaw(&bufX)
+			if err != nil {
+				a.Mis("stream:buffer:raw-held", fmt.Sprintf("NewMapXmlReaderRaw on a *bytes.Buffer, document %d: %v", i+1, err), c)
+				break
+			}
+			rawsX = append(rawsX, raw)
+			bufJ.WriteString(bj[i])
+			_, rawj, err := mxj.NewMapJsonReaderRaw(&bufJ)
+			if err != nil {
+				a.Mis("stream:buffer:raw-held", fmt.Sprintf("NewMapJsonReaderRaw on a *bytes.Buffer, document %d: %v", i+1, err), c)
+				break
+			}
+			rawsJ = append(rawsJ, rawj)
+		}
+		for i := range rawsX {
+			if string(rawsX[i]) != bx[i] {
+				a.Mis("stream:buffer:raw-held", fmt.Sprintf("NewMapXmlReaderRaw on a *bytes.Buffer that is appended to between the calls: the raw bytes returned for document %d read %q after the later calls, the document is %q", i+1, rawsX[i], bx[i]), c)
+				break
+			}
+		}
+		for i := range rawsJ {
+			if string(rawsJ[i]) != bj[i] {
+				a.Mis("stream:buffer:raw-held", fmt.Sprintf("NewMapJsonReaderRaw on a *bytes.Buffer that is appended to between the calls: the raw bytes returned for document %d read %q after the later calls, the document is %q", i+1, rawsJ[i], bj[i]), c)
+				break
+			}
+		}
+	}
 	// *os.File streams
-	xdocs := []string{`<a k="1"><b>x</b></a>`, `<c/>`, `<d>` + strings.Repeat("y", 5000) + `</d>`, `<e>z</e>`}
-	jdocs := []string{`{"a":{"b":"x"}}`, `{"c":[1,2]}`, `{"d":"` + strings.Repeat("y", 5000) + `"}`, `{"e":true}`}
+	xdocs := []string{`<a k="1"><b>x</b></a>`, `<c/>`, `<d>` + strings.Repeat("y", 5000) + `</d>`, `<q>5" long</q>`, `<r k='"'>it's > that</r>`, `<e>z</e>`}
+	jdocs := []string{`{"a":{"b":"x"}}`, `{"c":[1,2]}`, `{"d":"` + strings.Repeat("y", 5000) + `"}`, `{"q":"it's 5\" long"}`, `{"e":true}`}
+	// ... and the same documents as a FILE through the file readers (quotes in character data are data: only a tag has quoting)
+	{
+		for _, sep := range []string{"", "\n"} {
+			fx, _ := os.CreateTemp("", "mxjfilex")
+			fx.WriteString(strings.Join(xdocs, sep))
+			fx.Close()
+			ms, err := mxj.NewMapsFromXmlFile(fx.Name())
+			rs, rerr := mxj.NewMapsFromXmlFileRaw(fx.Name())
+			os.Remove(fx.Name())
+			okx := err == nil && rerr == nil && len(ms) == len(xdocs) && len(rs) == len(xdocs)
+			for i := 0; okx && i < len(xdocs); i++ {
+				wm, _ := mxj.NewMapXml([]byte(xdocs[i]))
+				okx = tagged.CanonGo(ms[i]) == tagged.CanonGo(wm) && tagged.CanonGo(rs[i].M) == tagged.CanonGo(wm) && strings.TrimSpace(string(rs[i].R)) == xdocs[i]
+			}
+			if !okx {
+				a.Mis("stream:file:quotes", fmt.Sprintf("NewMapsFromXmlFile[Raw] on a file of %d documents (separator %q; quotes and > in character data, a quote inside an attribute value): %d / %d Maps, errors %v / %v", len(xdocs), sep, len(ms), len(rs), err, rerr), c)
+			}
+			fj, _ := os.CreateTemp("", "mxjfilej")
+			fj.WriteString(strings.Join(jdocs, sep))
+			fj.Close()
+			mj, jerr := mxj.NewMapsFromJsonFile(fj.Name())
+			os.Remove(fj.Name())
+			okj := jerr == nil && len(mj) == len(jdocs)
+			for i := 0; okj && i < len(jdocs); i++ {
+				wm, _ := mxj.NewMapJson([]byte(jdocs[i]))
+				okj = tagged.CanonGo(mj[i]) == tagged.CanonGo(wm)
+			}
+			if !okj {
+				a.Mis("stream:file:quotes", fmt.Sprintf("NewMapsFromJsonFile on a file of %d documents (separator %q): %d Maps, error %v", len(jdocs), sep, len(mj), jerr), c)
+			}
+		}
+	}
 	open := func(kind, data string) *os.File {
 		if kind == "pipe" {
 			pr, pw, err := os.Pipe()
